@@ -8,7 +8,7 @@ RULE = ("every (dimensions, subdimensions) with subdimensions | dimensions and d
         "representation modes: the built graph's input / output slices, ensemble sizes and neuron-input / neuron-output "
         "slices are compared with the model; add_output with per-ensemble functions; rejection of non-divisible "
         "dimensionalities; Direct-mode simulation of State for the identity map (every split at d <= 16), feedback 1 holds "
-        "and feedback 0 forgets; LIFRate simulation: inhibiting all neuron inputs silences the state, driving one "
+        "and feedback 0 forgets (trace against Model/StateDyn.v for several splits, modes and synapses); LIFRate simulation: inhibiting all neuron inputs silences the state, driving one "
         "neuron-input entry moves only the neuron-output entry of the same index. Non-trivial: more than one ensemble; "
         "distinct = distinct (d, sub, mode, probe).")
 ASSUMPTIONS = ["ideal neurons = Nengo Direct mode (an ensemble outputs what it represents); neuron-level clause = seeded LIFRate neurons",
@@ -139,6 +139,48 @@ def run(rep, tier, rng):
                     term = "false"
                 add(term, {"op": "add_output", "d": d, "sub": sub}, ("add_output-layout", d, sub))
 
+    # ---- add_output with a list of functions: one per ensemble, or first / second / all remaining ------
+    lf = [(4, 2), (6, 2), (8, 2), (9, 3), (12, 4), (6, 3), (10, 5)] if quick else [(d, s) for d, s in pairs if 1 < s < d and d <= 24]
+    for d, sub in lf:
+        n_rem = d // sub - 1
+        for form in ("per-ensemble", "three"):
+            ks = [2.0 ** (i + 1) for i in range(n_rem + 2)] if form == "per-ensemble" else [2.0, 4.0, 8.0]
+            fns = [(lambda x, k=k: x * k) for k in ks]
+            x = np.array([rng.randint(-4, 4) / 4.0 for _ in range(d)])
+            mult = np.empty(d)
+            mult[0], mult[1:sub] = ks[0], ks[1]
+            for r in range(n_rem):
+                mult[sub * (r + 1):sub * (r + 2)] = ks[2 + r] if form == "per-ensemble" else ks[2]
+            snippet = ("import numpy as np, nengo\nfrom nengo_spa.networks import IdentityEnsembleArray\n"
+                       f"ks = {ks!r}; x = np.array({x.tolist()!r})\n"
+                       "with nengo.Network(seed=1) as net:\n    net.config[nengo.Ensemble].neuron_type = nengo.Direct()\n"
+                       f"    ea = IdentityEnsembleArray(3, {d}, {sub})\n    out = ea.add_output('f', [(lambda v, k=k: v * k) for k in ks])\n"
+                       "    nengo.Connection(nengo.Node(x), ea.input, synapse=None)\n    p = nengo.Probe(out, synapse=None)\n"
+                       "with nengo.Simulator(net, progress_bar=False) as sim:\n    sim.run(0.003)\n"
+                       f"assert np.allclose(sim.data[p][-1], np.array({mult.tolist()!r}) * x), sim.data[p][-1]\n")
+            rep.case(("add_output-list", form, d, sub))
+            rep.count("add_output-list-" + form)
+
+            def build():
+                with nengo.Network(seed=1) as net:
+                    net.config[nengo.Ensemble].neuron_type = nengo.Direct()
+                    ea4 = IdentityEnsembleArray(npd, d, sub)
+                    out = ea4.add_output("f", fns)
+                    nengo.Connection(nengo.Node(x), ea4.input, synapse=None)
+                    pr = nengo.Probe(out, synapse=None)
+                with nengo.Simulator(net, progress_bar=False) as sim:
+                    sim.run(0.003)
+                return sim.data[pr][-1]
+            o = c.outcome(build)
+            what = (f"IdentityEnsembleArray({npd}, {d}, {sub}).add_output with {'one function per ensemble' if form == 'per-ensemble' else 'three functions (first, second, all remaining ensembles)'}")
+            if o[0] != "ok":
+                key = "add-output-three-functions-several-remainder-ensembles" if form == "three" and n_rem > 1 and o[0] == "ValidationError" else None
+                rep.violation(f"{what} raised {o[0]}: {str(o[1])[:90]}", {"case": {"d": d, "sub": sub, "form": form}, "finding_key": key, "python": snippet})
+            elif not (np.shape(o[1]) == (d,) and np.allclose(o[1], mult * x, atol=1e-9)):
+                rep.violation(f"{what} does not apply each function to its own ensemble's dimensions in dimension order",
+                              {"case": {"d": d, "sub": sub, "form": form, "x": x.tolist()}, "observed": np.asarray(o[1]).tolist(),
+                               "expected": (mult * x).tolist(), "python": snippet})
+
     # ---- rejection of non-divisible dimensionalities ----------------------------------------------
     for d in range(1, 13 if quick else 33):
         for sub in range(1, d + 2):
@@ -177,24 +219,68 @@ def run(rep, tier, rng):
                 rep.violation(f"State(d={d}, sub={sub}, represent_cc_identity={mode}) with ideal neurons does not output its input",
                               {"case": {"d": d, "sub": sub, "mode": mode, "x": x.tolist()}, "observed": sim.data[p][-1].tolist(),
                                "python": "assert False, 'State output differs from its input in Direct mode'\n"})
+    # ---- feedback with ideal neurons: Model/StateDyn.v against the simulated trace --------------------
+    from fractions import Fraction
+    fconfs = [(4, 2, True, 0.01), (4, 2, False, 0.1), (6, 3, True, 0.05), (3, 1, False, 0.02), (5, 5, True, 0.1), (1, 1, True, 0.03)]
+    if not quick:
+        fconfs += [(d, s, m, tau) for d, s in [(8, 4), (12, 3), (16, 16), (7, 1), (9, 3)] for m in (True, False) for tau in (0.005, 0.2)]
+    n_in, n_total = 20, 60
+    fexprs, fmeta = [], []
     for fb in (1.0, 0.0):
-        with spa.Network(seed=1) as net:
-            net.config[nengo.Ensemble].neuron_type = nengo.Direct()
-            x = np.array([0.5, -0.25, 1.0, 0.0])
-            stim = nengo.Node(lambda t: x if t < 0.1 else np.zeros(4))
-            st = spa.State(4, subdimensions=2, feedback=fb, feedback_synapse=0.01)
-            nengo.Connection(stim, st.input, synapse=None, transform=0.01 / 0.1 if fb else 1.0)
-            p = nengo.Probe(st.output, synapse=None)
-        with nengo.Simulator(net, progress_bar=False) as sim:
-            sim.run(0.4)
-        rep.case(("feedback", fb))
-        rep.count("feedback")
-        t = sim.trange()
-        a, b2 = sim.data[p][np.searchsorted(t, 0.2)], sim.data[p][-1]
-        if fb == 1.0 and not (np.allclose(a, b2, atol=1e-6) and np.abs(a).max() > 0.01):
-            rep.violation("State with feedback=1 does not hold its value after the input ends", {"case": {"feedback": fb}, "observed": [a.tolist(), b2.tolist()]})
-        if fb == 0.0 and not np.allclose(b2, 0, atol=1e-9):
-            rep.violation("State with feedback=0 keeps a value after the input ends", {"case": {"feedback": fb}, "observed": b2.tolist()})
+        for d, sub, mode, tau in fconfs:
+            x = np.array([rng.randint(-4, 4) / 4.0 for _ in range(d)])
+            if not x.any():
+                x[0] = 0.75
+            with spa.Network(seed=1) as net:
+                net.config[nengo.Ensemble].neuron_type = nengo.Direct()
+                stim = nengo.Node(lambda t, x=x: x if t < (n_in + 0.5) * 0.001 else np.zeros(len(x)))
+                st = spa.State(d, subdimensions=sub, feedback=fb, feedback_synapse=tau, represent_cc_identity=mode)
+                nengo.Connection(stim, st.input, synapse=None)
+                p = nengo.Probe(st.output, synapse=None)
+            with nengo.Simulator(net, progress_bar=False) as sim:
+                sim.run(n_total * 0.001)
+            y = sim.data[p]
+            i0 = n_in + 2
+            case = {"d": d, "sub": sub, "represent_cc_identity": mode, "feedback": fb, "feedback_synapse": tau, "x": x.tolist()}
+            snippet = ("import numpy as np, nengo, nengo_spa as spa\n"
+                       f"x = np.array({x.tolist()!r})\n"
+                       "with spa.Network(seed=1) as net:\n"
+                       "    net.config[nengo.Ensemble].neuron_type = nengo.Direct()\n"
+                       f"    stim = nengo.Node(lambda t: x if t < {(n_in + 0.5) * 0.001!r} else np.zeros(len(x)))\n"
+                       f"    st = spa.State({d}, subdimensions={sub}, feedback={fb!r}, feedback_synapse={tau!r}, represent_cc_identity={mode})\n"
+                       "    nengo.Connection(stim, st.input, synapse=None)\n"
+                       "    p = nengo.Probe(st.output, synapse=None)\n"
+                       "with nengo.Simulator(net, progress_bar=False) as sim:\n"
+                       f"    sim.run({n_total * 0.001!r})\n"
+                       f"y = sim.data[p]; a, b = y[{i0}], y[-1]\n"
+                       + ("assert np.allclose(a, b, atol=1e-9) and np.abs(a).max() > 1e-3, ('value not held', a, b)\n" if fb else
+                          "assert np.allclose(b, 0, atol=1e-9), ('value kept without feedback', b)\n"))
+            rep.case(("feedback", fb, d, sub, mode, tau))
+            rep.count("feedback")
+            if fb:
+                y0 = [Fraction(float(v)) for v in y[i0]]
+                k = max([f.denominator.bit_length() - 1 for f in y0] + [0])
+                ints = [int(f * (1 << k)) for f in y0]
+                if not np.abs(y[i0]).max() > 1e-3:
+                    rep.violation(f"State(d={d}, sub={sub}, feedback=1, feedback_synapse={tau}) holds nothing right after the input ends",
+                                  {"case": case, "observed": y[i0].tolist(), "python": snippet})
+                    continue
+                for n in (1, 7, n_total - 1 - i0):
+                    fexprs.append(f"check_hold {c.nat(k)} {c.z(3)} {c.zlist(ints)} {c.nat(n)} ({c.z(1)}, {c.z(10**9)}) {c.dylist(y[i0 + n])}")
+                    fmeta.append({"what": f"State(d={d}, sub={sub}, represent_cc_identity={mode}, feedback=1, feedback_synapse={tau}) does not hold its value: "
+                                          f"{n} steps after the input ended the output differs from the model (Model/StateDyn.v sd_after)",
+                                  "case": dict(case, steps=n), "observed": [y[i0].tolist(), y[i0 + n].tolist()], "python": snippet})
+            else:
+                es = [[int(round(v * 4)) for v in x]] * n_in
+                fexprs.append(f"check_forget {c.nat(d)} {c.z(3)} {c.lst([c.zlist(e) for e in es])} ({c.z(1)}, {c.z(10**9)}) {c.dylist(y[-1])}")
+                fmeta.append({"what": f"State(d={d}, sub={sub}, represent_cc_identity={mode}, feedback=0) keeps a value after the input ends "
+                                      "(Model/StateDyn.v: without feedback the state stays at rest)",
+                              "case": case, "observed": y[-1].tolist(), "python": snippet})
+    fverd = c.coq_eval("C16", "feedback", "Model.StateDyn Tie.StateDynTie", fexprs, shard=400)
+    for ok, m in zip(fverd, fmeta):
+        if not ok:
+            rep.violation(m["what"], {"case": m["case"], "observed": m["observed"], "python": m["python"],
+                                      "expected": "Model/StateDyn.v; theorems C16_feedback_one_holds_the_value_for_every_number_of_steps, C16_feedback_zero_remembers_nothing"})
 
     # ---- neuron-level access with rate neurons ----------------------------------------------------------
     for d, sub in ([(4, 2), (6, 3), (4, 1), (3, 3)] if quick else [(4, 2), (6, 3), (4, 1), (3, 3), (8, 4), (1, 1), (12, 4)]):
